@@ -177,7 +177,7 @@ def repeated_import_module():
 def names_module():
     """export names that need escaping: symbols read from the header; must link and reach the right function"""
     m = Module(); cases = []
-    names = ['a_b', 'a__b', 'a-b', 'aXb', 'a.b', '_a', 'a_', '0', 'if']
+    names = ['a_b', 'a__b', 'a-b', 'aXb', 'a.b', '_a', 'a_', '0', 'if', 'get_-_a', 'val__.__b', 'mem_$_0', 'a___b', 'x-_-y', '_-', '-_']
     for k, n in enumerate(names):
         m.add_func('', 'i', (), i32_const(300 + k))
         m.exports.append((n, 0, k))
@@ -190,6 +190,21 @@ def names_module():
         syms = re.findall(r'^U32 (m_[A-Za-z0-9_]+)\(mInstance\*\s*i\);', hdr, re.M)   # \s*: pretty format (-p)
         if len(syms) != len(batch.cases) or len(set(syms)) != len(syms):
             raise RuntimeError('export symbols not distinct/complete: %r' % syms)
+        # the naming scheme the project states for symbols of exports whose names are not C identifiers (tests/gen.py export_name, restated):
+        # an underscore that follows an underscore is doubled, alphanumerics except 'X' stay, every other character is X + two hex digits
+        def documented(n):
+            out = ''
+            for i, c in enumerate(n):
+                if c == '_':
+                    out += '__' if i > 0 and n[i - 1] == '_' else '_'
+                elif c != 'X' and c.isalnum():
+                    out += c
+                else:
+                    out += 'X%02X' % ord(c)
+            return 'm_' + out
+        wrong = [(n, sy, documented(n)) for n, sy in zip(batch.names, syms) if sy != documented(n)]
+        if wrong:
+            raise RuntimeError('export %r is reachable as %s, the documented symbol is %s' % wrong[0])
         for c, sy, n in zip(batch.cases, syms, batch.names):
             c.sym = sy
             c.export = n
@@ -251,7 +266,10 @@ def main(tier):
 
     def work(job):
         label, b, kw = job
-        return run_batch(b, w2c2=w2c2, **kw)
+        try:
+            return run_batch(b, w2c2=w2c2, **kw)
+        except RuntimeError as e:      # raised by the post-translation hooks: export symbols missing, not distinct or not the documented ones
+            return {'done': False, 'stage': 'export-symbols', 'stderr': str(e)}
     states = transitions = 0
     fam = {'config': {'modules': 0, 'evaluations': 0}, 'two-instances': {'modules': 0, 'sequences': 0, 'steps': 0}}
     for (label, b, kw), res in zip(jobs, pmap(work, jobs)):
